@@ -44,7 +44,19 @@ def main():
                 c({"aws:SourceIp": "10.0.0.1", "k": "v"})
             if hasattr(r, "has_hardcoded_credentials"):
                 r.has_hardcoded_credentials()
+            for attr in ("ipv4_private_addr", "ipv4_public_addr", "ipv6_private_addr", "ipv6_public_addr", "is_public"):
+                pass
+        m.resources_filtered_by_type(("AWS::IAM::Role", "AWS::S3::Bucket"))
+        for name in ("Parameters", "Outputs", "Conditions"):
+            getattr(m, name)
         return n
+
+    def expanded_names(x):
+        if isinstance(x, dict):
+            return sum((len(v) if k in ("Action", "NotAction") and isinstance(v, list) else expanded_names(v)) for k, v in x.items())
+        if isinstance(x, list):
+            return sum(expanded_names(v) for v in x)
+        return 0
 
     out = sys.stdout
     for line in sys.stdin:
@@ -74,9 +86,20 @@ def main():
                 m3 = m2.expand_actions() if op.get("expand", True) else m2
                 stage = "queries"
                 queries(m2)
+                if op.get("queries_on_parsed"):
+                    # only for function-free templates: the policy queries are defined on concrete values
+                    stage = "queries-on-parsed"
+                    queries(m)
+                if op.get("expand", True) and expanded_names(m3.model_dump()) <= 1500:
+                    # an expanded `*` or NotAction holds most of the catalogue; the queries re-match every name against the whole
+                    # catalogue (quadratic in the size of the *expanded* model, not of the template): only small expansions
+                    stage = "queries-on-expanded"
+                    queries(m3)
                 stage = "revalidate"
                 type(m2)(**m2.model_dump())
-                res = {"outcome": "ok"}
+                import resource as _r
+
+                res = {"outcome": "ok", "maxrss_kb": _r.getrusage(_r.RUSAGE_SELF).ru_maxrss}
             else:
                 res = {"outcome": "bad-op"}
         except BaseException as e:  # noqa: B036 - the class of whatever escapes is the observable
